@@ -372,9 +372,14 @@ def d2(chk, repo):
                 chk.violation("D2", key, g.where, "subsystems are %s; documented chain: %s" % ([n for n, _ in order], [n for n, _ in CHAIN]))
                 continue
             con = {(a, b) for o, a, b, e in gr.connects if o == "self"}
+            if any(a is None or b is None for a, b in con):
+                chk.undecided("D2", "GeometryMesh connections [%s]" % tag, g.where, "connection names not resolved (unrecognised way of building the chain)")
+                con = None
             want = {("%s.mesh" % CHAIN[i][0], "%s.in_mesh" % CHAIN[i + 1][0]) for i in range(len(CHAIN) - 1)}
             key = "GeometryMesh connections [%s]" % tag
-            if con == want:
+            if con is None:
+                pass
+            elif con == want:
                 chk.ok("D2", key, g.where, "8 chain connections")
             else:
                 chk.violation("D2", key, g.where, "connections differ from the chain: missing %s, extra %s" % (sorted(want - con), sorted(con - want)))
